@@ -115,6 +115,16 @@ def cases(tier):
     yield "{ hero { f { a } f { b { c } } } }", {}
     yield "{ hero { f { b { c } } f { a } } }", {}
     yield "{ hero { x: f { a } ... on T { x: f { b { c { d } } } } } }", {}
+    # one field selected under several aliases with different depths below each (every alias is a path of its own), deep one first and last
+    yield "{ hero { a: friends { name } b: friends { friends { friends { name } } } } }", {}
+    yield "{ hero { b: friends { friends { friends { name } } } a: friends { name } } }", {}
+    yield "{ x: hero { name } y: hero { friends { friends { name } } } z: hero { name } }", {}
+    yield "{ hero { friends { name } deep: friends { friends { friends { friends { name } } } } } }", {}
+    # several operations declaring the same steering variable with different defaults: each operation is measured with its own defaults, in any order
+    for first, second in (("false", "true"), ("true", "false")):
+        for shape in ("query Shallow($deep: Boolean = %s) { a { b @include(if: $deep) { c { d } } } } query Deep($deep: Boolean = %s) { a { b @include(if: $deep) { c { d } } } }",
+                      "query One($off: Boolean = %s) { a { b @skip(if: $off) { c } x } } query Two($off: Boolean = %s) { a { ...F @skip(if: $off) } } fragment F on T { b { c { d } } }"):
+            yield shape % (first, second), {}
     # the same fragment spread twice in one selection set, one spread switched off (either one, by literal or by variable; at the top and below a field)
     deep = " fragment Deep on T { a { b { c } } } fragment Flat on T { z }"
     for first, second in (("@include(if: $a)", "@include(if: $b)"), ("@skip(if: $b)", "@skip(if: $a)"), ("@skip(if: true)", ""), ("", "@skip(if: true)"),
